@@ -521,3 +521,44 @@ Example real_pool_ignores_values :
   let s := pexec 2 0 [[PGet; PGet; PPut; PPut; PGet; PGet]] (repeat 0 20) in
   (map ppcof (pthreads s), pheldcount s, pcreated s, length (pidle s)) = ([PIdle], 2, 2, 0).
 Proof. vm_compute. reflexivity. Qed.
+
+(* (o) Pool.Get that, on the expiry path, calls the user's destroy() BEFORE created-- ("uncount an
+   expired resource only after destroy returned"; seeded change C05-11).  The expired node is
+   already unlinked when destroy runs: if destroy PANICS, Get panics (the deferred Unlock runs) and
+   the resource stays counted for ever.  [PGetX] is the Get whose user callback panics; for the
+   destroy callback the step of the real code - pop the expired head, created--, destroy panics,
+   result -2 - is the step [pget ... true] takes when exactly one resource is idle and expired
+   (nothing is created: cp).  The variant keeps the count. *)
+Definition destroy_first_pstep (s : pstate) (t : nat) : option pstate :=
+  match nth_error (pthreads s) t with
+  | Some th =>
+    match ppcof th, pcur th, pidle s with
+    | PEnter, Some PGetX, (x, last) :: rest =>
+      if plocked s then None else
+      if expired (pmaxage s) (pclock s) last then
+        (* unlinked, destroy(x) panics, created-- never runs *)
+        Some (mkPS (plimit s) (pmaxage s) (pcreated s) rest (pclock s) (pnext s) (psig s) (pdestroyed s ++ [x])
+                   (upd_nth (pthreads s) t (mkPT PIdle (pscript th) (S (popi th)) (pheld th) (pres th ++ [(-2)%Z]))) false)
+      else pstep s t
+    | _, _, _ => pstep s t
+    end
+  | None => pstep s t
+  end.
+
+(* limit 1, max-age 100: the only resource is returned, expires, the Get that drops it has a
+   panicking destroy; nobody holds anything, nothing is idle - and the next Get waits for ever *)
+Theorem destroy_first_capacity_lost_refuted :
+  exists n maxage scripts sched,
+    let s := run destroy_first_pstep (pinit n maxage scripts) sched in
+    map ppcof (pthreads s) = [PWaiting] /\ pheldcount s = 0 /\ pidle s = [] /\ pdestroyed s = [0] /\ 0 < n.
+Proof.
+  exists 1, 100%Z, [[PGet; PPut; PAdv 500; PGetX; PGet]], (repeat 0 14).
+  vm_compute. repeat split; repeat constructor.
+Qed.
+
+(* the real order (created-- first): the panicking destroy costs nothing, the next Get creates *)
+Example real_pool_destroy_panic_keeps_capacity :
+  let s := pexec 1 100 [[PGet; PPut; PAdv 500; PGetX; PGet]] (repeat 0 14) in
+  (map ppcof (pthreads s), pheldcount s, pcreated s, pdestroyed s, map pres (pthreads s)) =
+  ([PIdle], 1, 1, [0], [[0; -1; -1; -2; 1]%Z]).
+Proof. vm_compute. reflexivity. Qed.
